@@ -82,7 +82,11 @@ def install(world):
     world.ctor_handlers["ProxyRecordWriter"] = record("proxy")
     world.handlers[("FileOpener", "dnaio_open")] = record("direct")
 
+    prev_dict = world.builtins.get("dict")
+
     def b_dict(ex, st, args, kwargs, node, spec):
+        if prev_dict is not None and not args and not kwargs and getattr(ex.cx.c, "int_key_dicts", False):
+            return prev_dict(ex, st, args, kwargs, node, spec)
         return ObjV("__kwdict__", dict(kwargs))
     world.builtins["dict"] = b_dict
 
